@@ -97,7 +97,7 @@ def to_smt2(assertions, logic="ALL"):
     for a in assertions:
         s.add(a)
     text = s.to_smt2()
-    text = text.replace("(check-sat)", "")
+    text = text.replace("(check-sat)", "").replace("seq.nth_i", "seq.nth").replace("seq.nth_u", "seq.nth")
     return f"(set-logic {logic})\n" + text + "\n(check-sat)\n"
 
 
@@ -125,22 +125,19 @@ def discharge(o, quick_ms=4000, cli_timeout=20, outdir=None, extra_rules=(), rou
     if z3.is_true(g):
         return Status(o, "discharged", "simplifier", time.time() - t0)
     hyps, neg, ax = build_query(o, rounds=rounds, extra_rules=extra_rules)
-    s = z3.Solver()
-    s.set("timeout", quick_ms)
-    for h in hyps:
-        s.add(h)
-    s.add(neg)
-    r = s.check()
+    from .seqabs import AbsSolver
+    try:
+        a = AbsSolver(quick_ms)
+        for h in hyps:
+            a.add(h)
+        r = a.check_with(neg)
+    except NotImplementedError:
+        r = z3.unknown
     dt = time.time() - t0
     if r == z3.unsat:
-        return Status(o, "discharged", "z3-5.1.0(api)", dt, detail={"axioms": sorted(ax.used)})
+        return Status(o, "discharged", "z3-5.1.0(api, EUF+LIA abstraction of sequences)", dt, detail={"axioms": sorted(ax.used)})
     model = None
-    if r == z3.sat:
-        try:
-            model = input_values(s.model(), o.meta.get("inputs", []))
-        except Exception as ex:  # noqa
-            model = {"<error>": str(ex)}
-        # a sat answer of the in-process solver is a refutation candidate; cross-check with the CLI portfolio
+    r = z3.unknown  # a 'sat' of the abstraction proves nothing
     text = to_smt2(hyps + [neg])
     d = outdir or tempfile.mkdtemp(prefix="pyvc_")
     os.makedirs(d, exist_ok=True)
